@@ -73,6 +73,7 @@ class Env:
             self._add(n, i, n.startswith("Report."))
         self.locals_num = []
         self.locals_bool = []
+        self.extra = 0
 
     def _add(self, name, init, is_rep):
         if is_rep:
@@ -146,7 +147,7 @@ def gen_stmt(rng, env, max_tmps=8, allow_new_local=True):
             c = ("op", "lt", ("num", 1), ("num", 2))
         if env.bool_rc and rng.random() < 0.6:
             return ("op", "bind", ("var", rng.choice(env.bool_rc)), c)
-        if allow_new_local and len(env.locals_num) + len(env.locals_bool) < 6:
+        if allow_new_local and len(env.locals_num) + len(env.locals_bool) + env.extra < 6:
             n = fresh_names(rng, 1, set(BUILTINS) | set(env.num_rc) | set(env.bool_rc) | set(env.locals_num) | set(env.locals_bool))[0]
             env.locals_bool.append(n)
             return ("op", "bind", ("var", n), c)
@@ -176,7 +177,7 @@ def gen_stmt(rng, env, max_tmps=8, allow_new_local=True):
         tgt = rng.choice(IMPLICIT_NUM)
     elif q < 0.8 and env.locals_num:
         tgt = rng.choice(env.locals_num)
-    elif allow_new_local and len(env.locals_num) + len(env.locals_bool) < 6:
+    elif allow_new_local and len(env.locals_num) + len(env.locals_bool) + env.extra < 6:
         tgt = fresh_names(rng, 1, set(BUILTINS) | set(env.num_rc) | set(env.bool_rc) | set(env.locals_num) | set(env.locals_bool))[0]
         env.locals_num.append(tgt)
     elif env.num_rc:
@@ -193,6 +194,24 @@ def gen_program(rng, nrep=None, nctl=None, nev=None, bools=True, ensure_report=0
     for _ in range(nev or rng.choice([1, 1, 2, 3, 5])):
         c, _ = gen_cond(rng, env, rng.choice([0, 1, 2, 4, 8]))
         body = [gen_stmt(rng, env) for _ in range(rng.randrange(1, 7))]
+        if rng.random() < 0.08 and len(env.locals_num) + len(env.locals_bool) + env.extra <= 4:
+            # a read of a name that was never assigned (an untyped local, reads 0), copied into a fresh local which
+            # is then given a number (regression shape of F11: the second bind used to write the *other* register)
+            used = set(BUILTINS) | set(env.num_rc) | set(env.bool_rc) | set(env.locals_num) | set(env.locals_bool)
+            t, u = fresh_names(rng, 2, used)
+            i = rng.randrange(len(body) + 1)
+            body.insert(i, ("op", "bind", ("var", t), ("var", u)))
+            j = rng.randrange(i + 1, len(body) + 1)
+            saved, env.locals_num = env.locals_num, []   # position j may precede the first assignment of a local
+            v, _ = gen_num(rng, env, rng.randrange(0, 3))
+            env.locals_num = saved
+            body.insert(j, ("op", "bind", ("var", t), v))
+            env.locals_num.append(t)
+            if rng.random() < 0.5:
+                body.insert(rng.randrange(j + 1, len(body) + 1), ("op", "bind", ("var", u), ("num", rng.randrange(0, 100))))
+                env.locals_num.append(u)
+            else:
+                env.extra += 1  # stays untyped: never read again, but it occupies a local register
         evs.append((c, body))
     if rng.random() < ensure_report:
         c, body = rng.choice(evs)
